@@ -50,7 +50,7 @@ Let O := MxMat tr sq eg.
 Variable n : nat.
 
 (* the contract of the LDL^T-based square root, for one covariance *)
-Definition msqrt_contract (P : 'M[F]_n) := @sq n P *m (@sq n P)^T = P.
+Definition msqrt_contract (P : 'M[F]_n) := (ldlt_sqrt (O:=O) P : 'M[F]_n) *m (ldlt_sqrt (O:=O) P : 'M[F]_n)^T = P.
 
 Lemma get00 (A : 'M[F]_1) : mx_get A 0 0 = A 0 0.
 Proof. by rewrite -(mx_get_ord A 0 0). Qed.
@@ -61,8 +61,9 @@ Lemma mahalanobis (m z : M O n 1) (P : M O n n) :
   quadform (O:=O) (msub (sample_from_proposal m P z) m) (minv P) =
   quadform (O:=O) z (mid n).
 Proof.
-move=> sP cP; rewrite /quadform /sample_from_proposal /= !get00.
-by rewrite (mahalanobis_mx sP cP) mulmx1.
+move=> sP cP; rewrite /quadform /sample_from_proposal.
+change (mx_get (((m + ldlt_sqrt (O:=O) P *m z) - m)^T *m invmx P *m ((m + ldlt_sqrt (O:=O) P *m z) - m)) 0 0 = mx_get (z^T *m 1%:M *m z) 0 0).
+by rewrite !get00 (mahalanobis_mx sP cP) mulmx1.
 Qed.
 
 Lemma quadform_id (z : M O n 1) :
